@@ -517,7 +517,7 @@ def wrap(
         line
         for paragraph in text.splitlines()
         for line in (textwrap.wrap(paragraph, width, **kwargs) if paragraph else [""])
-    ]
+    ] or [""]
     # Manually take care of `initial_indent` and `subsequent_indent` since we don't
     # want them to count towards `width`
     return [initial_indent + first, *(subsequent_indent + line for line in rest)]
